@@ -3,8 +3,12 @@ CONSTANT Letters <- MCLetters
 CONSTANT VK <- MCVK
 CONSTANT WK <- MCWK
 CONSTANT Acc <- MCAcc
+CONSTANT Opt <- MCOpt
+CONSTANT Mdl <- MCMdl
+CONSTANT InPlace <- MCInPlace
 CONSTANT MaxLen = 3
 CONSTANT Policy = "as_is"
 CONSTANT SeedsRng = TRUE
+CONSTANT ReaderCopies = TRUE
 INVARIANT HistoryIndependent
 CHECK_DEADLOCK FALSE
